@@ -243,6 +243,7 @@ func genScenarioC08(t *Tape, thorough bool) *Scenario {
 		o.Prof.BigChance, o.Prof.BigMax = 5, 270000
 		o.MaxUnits = 5
 	}
+	o.TableIDReuse = cs.Chance(1, 2) // tables re-announced with other column types, ids taken over
 	h := genHistoryFor(t, hs, &o)
 	sc := &Scenario{Hist: h, Start: pickStart(cs, h, true), ServerID: 1001}
 	a := cleanAttempt(cs, t.S("policy"))
@@ -540,6 +541,7 @@ func fillFault(s *Stream, h *History, kind stopKind, at int, p *AttemptPlan) {
 		p.MiscountDelta = []int{1, -1, 2, -2, 5}[s.N(5)]
 		p.EnvErrKind = s.Weighted(4, 1, 1, 1, 1)
 		p.EnvCancels = s.Chance(1, 5)
+		p.ErrWithTable = s.Chance(1, 3)
 	case stopTimeout:
 		p.CancelAfter = at
 	case stopHandshakeFIN:
